@@ -368,7 +368,7 @@ func cmdCheck(args []string) int {
 		"sequential execution only (no goroutine interleavings)",
 		"64-bit int, little-endian host",
 		"termination only where a decreases clause is given",
-		"slice lengths, capacities and offsets are at most 2^62",
+		"slice lengths, capacities and offsets are at most 2^40 elements",
 	}
 	for a := range assumptions {
 		asm = append(asm, a)
